@@ -313,3 +313,236 @@ Proof.
       rewrite (app_cons_snoc _ cur (step_of (snd pt)) (s2 :: Q3)).
       rewrite IH; [|discriminate|exact HP]. reflexivity.
 Qed.
+
+Lemma ins_walk_find : forall ps (t : ftree) cur t1 p,
+  star_last ps = true ->
+  ins_walk t cur ps = (t1, Some p) ->
+  (forall Q, prefixb Q (cur ++ psteps ps) = true -> (length cur < length Q)%nat -> t Q <> None) ->
+  find_decl t cur ps = Some (cur ++ psteps ps).
+Proof.
+  induction ps as [|pt rest IH]; intros t cur t1 p SL H HN.
+  - cbn. rewrite app_nil_r. reflexivity.
+  - cbn [ins_walk find_decl] in *.
+    rewrite psteps_cons, (app_cons_snoc _ cur (step_of (snd pt)) (psteps rest)) in HN.
+    rewrite psteps_cons, (app_cons_snoc _ cur (step_of (snd pt)) (psteps rest)).
+    set (p0 := cur ++ [step_of (snd pt)]) in *.
+    assert (SLr : star_last rest = true) by (eapply star_last_tail; eauto).
+    destruct (t p0) as [n|] eqn:E.
+    2:{ exfalso. apply (HN p0); [apply prefixb_app | unfold p0; rewrite app_length; cbn; lia | exact E]. }
+    assert (HNr : forall Q, prefixb Q (p0 ++ psteps rest) = true -> (length p0 < length Q)%nat -> t Q <> None).
+    { intros Q HQ HL. apply HN; [exact HQ|]. unfold p0 in HL. rewrite app_length in HL. cbn in HL. lia. }
+    destruct (step_of (snd pt)) eqn:S.
+    + eapply IH; eauto.
+    + destruct (tok_eqb (param_name (snd pt)) (n_pname n)); [|discriminate]. eapply IH; eauto.
+    + assert (rest = []) by (eapply star_last_wild_head; eauto). subst rest.
+      cbn. rewrite app_nil_r. reflexivity.
+Qed.
+
+Lemma psteps_last : forall ps, ps <> [] -> last (psteps ps) SParam = step_of (snd (last ps dpart)).
+Proof.
+  induction ps as [|pt rest IH]; intro H; [contradiction|].
+  destruct rest as [|q r]; [reflexivity|].
+  rewrite psteps_cons. rewrite last_cons_cons. rewrite <- IH by discriminate.
+  rewrite psteps_cons. reflexivity.
+Qed.
+
+Lemma star_last_prefix_eq : forall ps S,
+  star_last ps = true -> prefixb S (psteps ps) = true -> S <> [] -> last S SParam = SWild ->
+  S = psteps ps.
+Proof.
+  induction ps as [|pt rest IH]; intros S SL HP NE LW.
+  - destruct S; [contradiction | discriminate].
+  - destruct S as [|s S']; [contradiction|].
+    rewrite psteps_cons in *. cbn in HP. apply andb_true_iff in HP as [HS HP].
+    apply step_eqb_eq in HS. subst s.
+    destruct S' as [|s2 S3].
+    + cbn in LW. assert (rest = []) by (eapply star_last_wild_head; eauto). subst. reflexivity.
+    + f_equal. apply IH; [eapply star_last_tail; eauto | exact HP | discriminate |].
+      rewrite last_cons_cons in LW. exact LW.
+Qed.
+
+Lemma Inv_node : forall fs t P n, Inv fs t -> P <> [] -> t P = Some n ->
+  anode fs P = true /\ n_part n = apart fs P /\ n_val n = anval fs P.
+Proof.
+  intros fs t P n HI NE H. rewrite HI, atree_nonroot in H by exact NE.
+  destruct (anode fs P); [|discriminate]. inversion H; subst. cbn. auto.
+Qed.
+
+Lemma Inv_none : forall fs t P, Inv fs t -> t P = None -> P <> [] /\ anode fs P = false.
+Proof.
+  intros fs t P HI H. rewrite HI in H. destruct P as [|s P]; [discriminate|].
+  split; [discriminate|]. rewrite atree_nonroot in H by discriminate.
+  destruct (anode fs (s :: P)); [discriminate | reflexivity].
+Qed.
+
+Lemma anval_none : forall fs P, anode fs P = false -> aval fs P = [].
+Proof.
+  intros fs P H. destruct (aval fs P) eqn:E; [reflexivity|].
+  rewrite aval_nonempty_anode in H; [discriminate | rewrite E; discriminate].
+Qed.
+
+Lemma atree_app_other : forall fs f P,
+  P <> psteps (pat f) -> (through P f = true -> P <> [] -> anode fs P = true) ->
+  atree (fs ++ [f]) P = atree fs P.
+Proof.
+  intros fs f P NE HT. destruct P as [|s P]; [reflexivity|].
+  rewrite !atree_nonroot by discriminate. rewrite anode_app.
+  assert (EV : anval (fs ++ [f]) (s :: P) = anval fs (s :: P)).
+  { unfold anval. rewrite aval_app.
+    assert (path_eqb (psteps (pat f)) (s :: P) = false) as ->
+      by (apply path_eqb_neq; congruence).
+    rewrite app_nil_r. reflexivity. }
+  destruct (anode fs (s :: P)) eqn:EA.
+  - cbn [orb]. rewrite apart_app_old by exact EA. rewrite EV. reflexivity.
+  - cbn [orb]. destruct (through (s :: P) f) eqn:ET; [|reflexivity].
+    assert (false = true) by (apply HT; [reflexivity | discriminate]). discriminate.
+Qed.
+
+Lemma some_nonempty : forall (l : list flow) f,
+  match l ++ [f] with [] => None | x => Some x end = Some (l ++ [f]).
+Proof. intros l f. destruct l; reflexivity. Qed.
+
+(* appending to the node declared on exactly this URL *)
+Lemma add_append_inv : forall fs (t : ftree) f n fl,
+  Inv fs t ->
+  t (psteps (pat f)) = Some n -> n_val n = Some fl ->
+  Inv (fs ++ [f]) (upd t (psteps (pat f)) {| n_part := n_part n; n_val := Some (fl ++ [f]) |}).
+Proof.
+  intros fs t f n fl HI Hn Hv P.
+  set (S := psteps (pat f)) in *.
+  assert (SNE : S <> []) by apply psteps_pat_nonempty.
+  destruct (Inv_node _ _ _ _ HI SNE Hn) as [HA [HP HV]].
+  unfold upd. destruct (path_eqb P S) eqn:EP.
+  - apply path_eqb_eq in EP. subst P. rewrite atree_nonroot by exact SNE.
+    rewrite anode_app, HA. cbn [orb]. rewrite apart_app_old by exact HA. rewrite HP.
+    f_equal. f_equal. unfold anval in *. rewrite aval_app. fold S. rewrite path_eqb_refl.
+    rewrite Hv in HV. destruct (aval fs S) eqn:EV; [discriminate|]. inversion HV; subst.
+    symmetry. apply some_nonempty.
+  - apply path_eqb_neq in EP. rewrite HI. symmetry. apply atree_app_other; [exact EP|].
+    intros HT _. eapply anode_prefix; eauto.
+Qed.
+
+(* InsertDeclaredURL on a URL whose node holds no value yet *)
+Lemma add_insert_inv : forall fs (t t' : ftree) f,
+  Inv fs t -> stars_last fs = true -> star_last (pat f) = true ->
+  (find_decl t [] (pat f) = None \/ val_at t (psteps (pat f)) = None) ->
+  insert_declared t (pat f) [f] = (t', false) ->
+  Inv (fs ++ [f]) t'.
+Proof.
+  intros fs t t' f HI SLs SL Hcase H.
+  set (ps := pat f) in *. set (S := psteps ps) in *.
+  assert (SNE : S <> []) by apply psteps_pat_nonempty.
+  assert (PNE : ps <> []) by apply pat_nonempty.
+  unfold insert_declared in H. destruct (validate ps); [|inversion H].
+  destruct (ins_walk t [] ps) as [t1 [p|]] eqn:EW; [|inversion H].
+  (* the node of this URL exists => all its ancestors exist *)
+  assert (HANC : t S <> None ->
+            forall Q, prefixb Q ([] ++ S) = true -> (length (@nil step) < length Q)%nat -> t Q <> None).
+  { intros HS Q HQ HL. cbn in HQ, HL. destruct (t S) as [n0|] eqn:E0; [|contradiction].
+    destruct (Inv_node _ _ _ _ HI SNE E0) as [HA _].
+    assert (QNE : Q <> []) by (destruct Q; [cbn in HL; lia | discriminate]).
+    rewrite HI, atree_nonroot by exact QNE. rewrite (anode_prefix _ _ _ HA HQ). discriminate. }
+  assert (HV : val_at t S = None).
+  { destruct Hcase as [HF|HV]; [|exact HV].
+    unfold val_at. destruct (t S) as [n0|] eqn:E0; [|reflexivity]. exfalso.
+    assert (find_decl t [] ps = Some ([] ++ S)) as HF'.
+    { eapply ins_walk_find; eauto. apply HANC. congruence. }
+    rewrite HF in HF'. discriminate. }
+  (* a trailing wildcard: its node (hence everything below) is absent *)
+  assert (HW : last_wild ps -> forall Q, prefixb ([] ++ S) Q = true -> t Q = None).
+  { intros LW Q HQ. cbn in HQ. destruct (t Q) as [nq|] eqn:EQ; [exfalso|reflexivity].
+    assert (QNE : Q <> []).
+    { intro. subst Q. destruct S; [contradiction | discriminate]. }
+    destruct (Inv_node _ _ _ _ HI QNE EQ) as [HAQ _].
+    assert (HAS : anode fs S = true) by (eapply anode_prefix; eauto).
+    unfold anode in HAS. apply existsb_exists in HAS as [g [Hg HTg]]. unfold through in HTg.
+    assert (SLg : star_last (pat g) = true).
+    { unfold stars_last in SLs. rewrite forallb_forall in SLs. apply SLs. exact Hg. }
+    assert (HSg : S = psteps (pat g)).
+    { apply star_last_prefix_eq; auto. unfold S. rewrite psteps_last by exact PNE. exact LW. }
+    assert (HgS : In g (aval fs S)) by (apply aval_in; split; [exact Hg | congruence]).
+    unfold val_at in HV. destruct (t S) as [n0|] eqn:E0.
+    - destruct (Inv_node _ _ _ _ HI SNE E0) as [_ [_ HV0]]. rewrite HV in HV0.
+      unfold anval in HV0. destruct (aval fs S); [contradiction | discriminate].
+    - destruct (Inv_none _ _ _ HI E0) as [_ HA0]. rewrite anval_none in HgS by exact HA0. contradiction. }
+  destruct (ins_walk_spec ps t [] t1 p SL HW EW) as [Hp HQ]. cbn in Hp. fold S in Hp. subst p.
+  destruct (t1 S) as [n|] eqn:E1; [|inversion H].
+  inversion H; subst t'. clear H.
+  intro P. unfold upd. destruct (path_eqb P S) eqn:EP.
+  - apply path_eqb_eq in EP. subst P. rewrite atree_nonroot by exact SNE.
+    rewrite anode_app. rewrite HQ in E1.
+    destruct (t S) as [n0|] eqn:E0.
+    + inversion E1; subst n0. destruct (Inv_node _ _ _ _ HI SNE E0) as [HA [HP HV0]].
+      rewrite HA. cbn [orb]. rewrite apart_app_old by exact HA. rewrite HP.
+      f_equal. f_equal. unfold val_at in HV. rewrite E0 in HV. rewrite HV in HV0.
+      unfold anval in *. rewrite aval_app. fold ps. fold S. rewrite path_eqb_refl.
+      destruct (aval fs S); [reflexivity | discriminate].
+    + destruct (Inv_none _ _ _ HI E0) as [_ HA0]. rewrite HA0. cbn [orb].
+      assert (HT : through S f = true) by (unfold through; fold ps; fold S; apply prefixb_refl).
+      rewrite HT. rewrite apart_app_new by assumption. fold ps.
+      change S with ([] ++ S) in E1. rewrite created_prefix in E1 by (auto using prefixb_refl).
+      inversion E1; subst n. cbn. f_equal. f_equal.
+      unfold anval. rewrite aval_app. fold ps. fold S. rewrite path_eqb_refl.
+      rewrite anval_none by exact HA0. reflexivity.
+  - apply path_eqb_neq in EP. rewrite HQ. destruct (t P) as [n0|] eqn:E0.
+    + rewrite <- E0, HI. symmetry. apply atree_app_other; [exact EP|].
+      intros _ PNE'. destruct (Inv_node _ _ _ _ HI PNE' E0) as [HA _]. exact HA.
+    + destruct (Inv_none _ _ _ HI E0) as [PNE' HA0].
+      rewrite atree_nonroot by exact PNE'. rewrite anode_app, HA0. cbn [orb].
+      destruct (through P f) eqn:ET.
+      * unfold through in ET. fold ps in ET. fold S in ET.
+        change P with ([] ++ P). rewrite created_prefix by assumption. cbn [app].
+        rewrite apart_app_new by assumption. fold ps. unfold fresh. f_equal. f_equal.
+        unfold anval. rewrite aval_app. fold ps. fold S.
+        assert (path_eqb S P = false) as -> by (apply path_eqb_neq; congruence).
+        rewrite anval_none by exact HA0. reflexivity.
+      * destruct (created [] ps P) as [x|] eqn:EC; [exfalso|reflexivity].
+        apply created_some in EC as [Q' [H1 [H2 H3]]]. cbn in H1. subst Q'.
+        unfold through in ET. fold ps in ET. rewrite H3 in ET. discriminate.
+Qed.
+
+Lemma add_flow_inv : forall fs (t t' : ftree) f,
+  Inv fs t -> stars_last fs = true -> star_last (pat f) = true ->
+  add_flow t f = (t', false) -> Inv (fs ++ [f]) t'.
+Proof.
+  intros fs t t' f HI SLs SL H. unfold add_flow in H.
+  destruct (find_decl t [] (pat f)) as [p|] eqn:EF.
+  - assert (p = psteps (pat f)) by (apply find_decl_path in EF; exact EF). subst p.
+    destruct (t (psteps (pat f))) as [n|] eqn:En.
+    + destruct (n_val n) as [fl|] eqn:Ev.
+      * inversion H; subst. eapply add_append_inv; eauto.
+      * eapply add_insert_inv; eauto. right. unfold val_at. rewrite En. exact Ev.
+    + eapply add_insert_inv; eauto. right. unfold val_at. rewrite En. reflexivity.
+  - eapply add_insert_inv; eauto.
+Qed.
+
+Lemma stars_last_app : forall a b, stars_last (a ++ b) = stars_last a && stars_last b.
+Proof. intros. unfold stars_last. apply forallb_app. Qed.
+
+Lemma build_from_inv : forall fs2 fs1 (t t' : ftree) es,
+  Inv fs1 t -> stars_last (fs1 ++ fs2) = true ->
+  build_from t fs2 = (t', es) -> forallb negb es = true ->
+  Inv (fs1 ++ fs2) t'.
+Proof.
+  induction fs2 as [|f rest IH]; intros fs1 t t' es HI SL HB HE.
+  - cbn in HB. inversion HB; subst. rewrite app_nil_r. exact HI.
+  - cbn in HB. destruct (add_flow t f) as [t1 e] eqn:EA.
+    destruct (build_from t1 rest) as [t2 es2] eqn:EB. inversion HB; subst. clear HB.
+    cbn in HE. apply andb_true_iff in HE as [He HE]. destruct e; [discriminate|].
+    rewrite stars_last_app in SL. apply andb_true_iff in SL as [SL1 SL2].
+    cbn in SL2. apply andb_true_iff in SL2 as [SLf SLr].
+    replace (fs1 ++ f :: rest) with ((fs1 ++ [f]) ++ rest) by (rewrite <- app_assoc; reflexivity).
+    eapply IH; eauto.
+    + eapply add_flow_inv; eauto.
+    + rewrite !stars_last_app. apply andb_true_iff; split;
+        [apply andb_true_iff; split; [exact SL1 | cbn; rewrite SLf; reflexivity] | exact SLr].
+Qed.
+
+(* THE representation lemma *)
+Theorem build_repr : forall fs,
+  load_ok fs = true -> stars_last fs = true -> Inv fs (fst (build fs)).
+Proof.
+  intros fs HL SL. unfold load_ok, build in *.
+  destruct (build_from empty fs) as [t es] eqn:EB. cbn in *.
+  change fs with ([] ++ fs). eapply build_from_inv; eauto. apply Inv_empty.
+Qed.
